@@ -467,10 +467,10 @@ def main(argv) -> int:
                 chk.merge(job.result())
             except Exception as err:
                 chk.harness_error(f"worker failed: {err!r}")
-    chk.require_min("valid_base_documents", chk.pick(150, 4000))
-    chk.require_min("constraint_twins_validated", chk.pick(300, 8000))
-    chk.require_min("structural_twins_validated", chk.pick(300, 8000))
-    chk.require_min("pattern_non_member_documents_validated", chk.pick(1000, 20000))
+    chk.require_min("valid_base_documents", chk.pick(120, 3000))
+    chk.require_min("constraint_twins_validated", chk.pick(300, 6000))
+    chk.require_min("structural_twins_validated", chk.pick(300, 6000))
+    chk.require_min("pattern_non_member_documents_validated", chk.pick(400, 10000))
     chk.assume("a constraint is expected only if the property's own class (or a constrained primitive it uses) states it as len(self.p) <op> K / K <op> len(self.p) / matches_x(self.p), optionally guarded on the same property; Python confirms each twin violates that invariant")
     chk.assume("tightenings that descendants apply to inherited properties, set-membership and numeric invariants are not expected to be enforced")
     chk.assume("patterns with anchors other than the outer ^...$ are not part of the workload; strings are XML 1.0 characters without line breaks")
